@@ -232,7 +232,7 @@ def run(index: RepoIndex, rep) -> None:
                   f'{attr} is not derived from {op}.{rattr}.space (or None when absent)',
                   f'init {attr}')
     e = st.get('self.action_space')
-    rep.check(e is not None and src(e.value) ==
+    rep.check(e is not None and src(w.expand(e.value)) ==
               f'gym.spaces.Discrete({op}.action_space.num_actions)', 'C20.R4', GYM,
               'GymEnvironment.__init__', m.node.lineno, src(e.stmt) if e else '',
               'the gym action space is not Discrete(number of actions)', 'init action space')
